@@ -32,7 +32,7 @@ CLAIMED = {
         "DESIGN.md §4 C10",
     ),
     "C03": (
-        "Lean 4 composition theorem pass_sound over arbitrary path lists (PASS with no flag implies no admissible input fails, from explicit hypotheses H1 coverage [C02/C10], H2 path faithfulness [C01/C12], H3 query = path [C11/C13], H4 solver sound on unsat) + setup_single_path; Props.C03Core discharges H1 and H2 for the exploration-core machine from C02.complete and C01.sound_exec (covered_core, faithful_core, pass_sound_core: PASS + no flag + H3 + H4 imply Spec.Evm.exec never ends in a configured Panic, for every valuation; hlit_needed shows the literal-Panic-code side condition cannot be dropped); Props.C03Calls does the same on the frame-stack machine runC (pass_sound_calls, _bytes, _all: nested calls, balances and value, SHA3, LOG, EXTCODE*, CREATE, mapping/array storage cells; admissibility AdmC = the visible hypotheses of C01.sound_calls_hsto / C02.complete_calls_hsto; failing_call_not_pass for non-vacuity); end-to-end differential run of the real run_contract on generated test contracts (guarded assertion failures: equalities, inequalities, arithmetic needing refinement, hashes, array lengths, storage set in setUp; static and dynamic parameters) against brute force on the Lean reference EVM, both solvers and both storage layouts, with replay of every printed counterexample",
+        "Lean 4 composition theorem pass_sound over arbitrary path lists (PASS with no flag implies no admissible input fails, from explicit hypotheses H1 coverage [C02/C10], H2 path faithfulness [C01/C12], H3 query = path [C11/C13], H4 solver sound on unsat) + setup_single_path; Props.C03Core discharges H1 and H2 for the exploration-core machine from C02.complete and C01.sound_exec (covered_core, faithful_core, pass_sound_core: PASS + no flag + H3 + H4 imply Spec.Evm.exec never ends in a configured Panic, for every valuation; hlit_needed shows the literal-Panic-code side condition cannot be dropped); Props.C03Calls does the same on the frame-stack machine runC (pass_sound_calls, _bytes, _all: nested calls, balances and value, SHA3, LOG, EXTCODE*, CREATE, mapping/array storage cells; admissibility AdmC = the visible hypotheses of C01.sound_calls_hsto / C02.complete_calls_hsto; failing_call_not_pass for non-vacuity); Props.C03Setup lifts it to the whole test run (pass_sound_test: setUp transaction then the test transaction on the world setUp left; model nextTx / runCFrom mirroring SEVM.run_message + Path.extend_path; C01.sound_calls_from, C02.complete_calls_from, relC_nextTx; admissibility AdmT; non-vacuity failing_test_not_pass; the coremodel correspondence runs two-transaction programs against the real run_message); end-to-end differential run of the real run_contract on generated test contracts (guarded assertion failures: equalities, inequalities, arithmetic needing refinement, hashes, array lengths, storage set in setUp; static and dynamic parameters) against brute force on the Lean reference EVM, both solvers and both storage layouts, with replay of every printed counterexample",
         "Composition proof as strong as its premises (each premise is another property's theorem/check; the solver's soundness on unsat is a stated hypothesis); the end-to-end half is a differential exploration (no PASS on a reachable failure in ~130 tests per quick run)",
         "Trusted: Lean kernel, Spec.Evm, the artifact fabricator (hand-assembled forge JSON), external solvers yices/z3",
         "DESIGN.md §4 C03",
